@@ -242,12 +242,18 @@ def numeq(a, b):
 
 def spelling_lemmas(h, pairs):
     """facts used by the spelling-invariance check: CMP does not see the spelling (proved: CMP.int-float-spelling);
-    value_string prints an integral float like the int (C13; assumed contract on float.__repr__ below 1e16)"""
+    value_string and value_json print an integral float like the int (C13/C14 clean-up obligations; assumed contract on
+    float.__repr__ below 1e16)"""
     from .value_c import VALUE_STRING
+    from pyvc.models_calls import JSON_TEXT
     H = h.term()
     out = []
+    ind = z3.Const('ind!sl', V)
     for a, b in pairs:
         out.append(z3.Implies(numeq(a, b), VALUE_STRING(H, a) == VALUE_STRING(H, b)))
+        # value_json prints an integral float like the int: the clean-up obligations of C14 (every terminator served,
+        # end of text included) over the assumed float.__repr__ grammar
+        out.append(z3.ForAll([ind], z3.Implies(numeq(a, b), JSON_TEXT(H, a, ind) == JSON_TEXT(H, b, ind))))
         for c, d in pairs:
             out.append(z3.Implies(z3.And(numeq(a, b), numeq(c, d)), sp_.CMP(H, a, c) == sp_.CMP(H, b, d)))
     return out
